@@ -61,7 +61,14 @@ var levelAlphabet = []string{"a", "b", ""}
 
 // genFilter draws a valid topic filter of depth 1..3 over a small alphabet with wildcards
 // at every legal position; first level may be a '$'-level.
+// c02DollarShareLike are ordinary (non-shared) filters / topic names in the '$' namespace that look like the shared
+// subscription prefix: only "$share/<group>/<filter>" is a shared subscription.
+var c02DollarShareLike = []string{"$share", "$shared/a", "$SHARE/a/b"}
+
 func genFilter(t *rapid.T, label string) string {
+	if rapid.IntRange(0, 29).Draw(t, label+".sharelike") == 0 {
+		return rapid.SampledFrom(c02DollarShareLike).Draw(t, label+".sharelike_f")
+	}
 	depth := rapid.IntRange(1, 3).Draw(t, label+".depth")
 	var lv []string
 	for i := 0; i < depth; i++ {
@@ -82,6 +89,9 @@ func genFilter(t *rapid.T, label string) string {
 }
 
 func genTopicName(t *rapid.T, label string) string {
+	if rapid.IntRange(0, 39).Draw(t, label+".sharelike") == 0 {
+		return rapid.SampledFrom(c02DollarShareLike).Draw(t, label+".sharelike_t")
+	}
 	depth := rapid.IntRange(1, 3).Draw(t, label+".depth")
 	var lv []string
 	for i := 0; i < depth; i++ {
@@ -109,7 +119,7 @@ var topicUniverse = func() []string {
 			}
 		}
 	}
-	return out
+	return append(out, c02DollarShareLike...)
 }()
 
 func genSubSpec(t *rapid.T, shared bool) subSpec {
